@@ -210,6 +210,8 @@ retry:
 		goto retry;
 
 	if (canonicalize_name(tar->current.name) != 0) {
+		fputs("rejecting tar entry with an invalid path "
+		      "(empty or leading outside the archive root)\n", stderr);
 		tar->state = SQFS_ERROR_CORRUPTED;
 		return tar->state;
 	}
